@@ -1266,6 +1266,11 @@ func (schema *Schema) visitEnumOperation(settings *schemaValidationSettings, val
 				if v == float64(c) {
 					return
 				}
+			case int32:
+				// what the request decoder yields for format int32
+				if v == float64(c) {
+					return
+				}
 			default:
 				if reflect.DeepEqual(v, value) {
 					return
